@@ -307,7 +307,39 @@ def c11(run):
         extra_assumptions=["paths of the program universe are static, so the route a request reaches is identified by its text"])
 
 
-PROPS = {"C11": c11, "C04": c04, "C03": c03, "C14": c14, "C15": c15, "C13": c13, "C01": c01, "C02": c02, "C07": c07, "C08": c08, "C09": c09, "C10": c10, "C12": c12}
+# ============================================================== route syntax
+def rs_cfg(maxlen, emitlen, dev=(), emit=True):
+    return ("SPECIFICATION Spec\nCONSTANTS\n MaxLen = %d\n EmitLen = %d\n EmitCases = %s\n Dev = %s\n" % (maxlen, emitlen, "TRUE" if emit else "FALSE", vlib.tla_set(dev)) +
+            "INVARIANT AcceptIffDerives\nINVARIANT CanonFixpoint\nCONSTRAINT EmitCase\nCHECK_DEADLOCK FALSE\n")
+
+
+def c06(run):
+    quick = run.tier == "quick"
+    run.build_harness()
+    env = {"VERIF_REPO": run.repo, "VERIF_SEED": str(run.seed), "VERIF_VARIANTS": "2" if quick else "4"}
+    # design check: lexer + token grammar against the character grammar over the lexer's own classes ("D12" switch);
+    # whether the DOCUMENTED classes (README) agree with them is judged per character in trace validation
+    r = run.model_check("RouteSyntax", rs_cfg(6 if quick else 8, 5 if quick else 6, dev=["D12"]), name="RS_gen", want_cases=True, heap="24g")
+    cf = vlib.subsample(r["cases_file"], 8000 if quick else 200000, run.seed, run)
+    run.conformance("rs_classes", "syntax", cf, "RouteSyntaxTrace", TRACE_CFG % "", env=env)
+    gen = os.path.join(run.work, "rs_rand.jsonl")
+    with open(gen, "w") as fo:
+        p = run.hrun(["syntax", "gen", run.seed, 5000 if quick else 300000], stdout=fo)
+    if p.returncode != 0:
+        raise Infra("syntax gen failed: " + p.stderr[-2000:])
+    run.conformance("rs_random", "syntax", gen, "RouteSyntaxTrace", TRACE_CFG % "", env=env)
+    return run.finish(
+        rule="TLC enumerates every string over the 13-class alphabet up to MaxLen whose lexing has not failed and checks that the "
+             "stateful lexer + token grammar accept exactly what the documented character grammar derives, and that the canonical form "
+             "is a fix-point; the strings up to EmitLen are concretised with seeded members of each class (2-4 variants) and parsed by the "
+             "real route.Parser under recover(); verdict, flattened AST, String(), re-parse are validated by TLC against the grammar "
+             "(membership of each character in the README's <char>/<any> is read from the repository's README); random byte strings, "
+             "random derivations (up to 5 segments, lists of 3 parameters, 0-2 blanks) and single-character mutations. "
+             "Non-trivial = strings of length >= 2.",
+        extra_assumptions=["participle's lexer/parser library is trusted to implement the rules it is given"])
+
+
+PROPS = {"C06": c06, "C11": c11, "C04": c04, "C03": c03, "C14": c14, "C15": c15, "C13": c13, "C01": c01, "C02": c02, "C07": c07, "C08": c08, "C09": c09, "C10": c10, "C12": c12}
 
 
 def main():
